@@ -162,10 +162,11 @@ GROUPS += [
                   "backwards); min <= max <= 2^32 s, grace any; one update_round call",
     },
     {
-        "id": "C09.steps", "property": "C09", "crate": "core", "harnesses": ["c09_finished", "c09_recv_", "c09_error_mapper_table"], "jobs": 3,
+        "id": "C09.steps", "property": "C09", "crate": "core", "harnesses": ["c09_finished", "c09_recv_", "c09_error_mapper_table", "c09_fail_probe_slot"], "jobs": 3,
         "timeout_s": 600, "mem_gb": 10, "functions": STRAT_FNS + STATE_FNS + ["net::common::ErrorMapper::{in_progress,addr_in_use,probe_failed}"], "stubs": [NET_STUB],
         "bounds": "finished: all n >= 1, all round counters; recv_response with a fatal error / a timeout from every INV state; "
-                  "ErrorMapper on representatives of 7 errno classes x 3 socket operations x 4 transient kinds",
+                  "ErrorMapper on representatives of 7 errno classes x 3 socket operations x 4 transient kinds; fail_probe at three "
+                  "concrete (initial sequence, round start, round size) positions: (100, 300, 5), (33434, 33434, 1), (0, 65022, 511)",
     },
     # ------------------------------------------------------------------ C10
     {
